@@ -342,7 +342,7 @@ const TEXTS: &[&str] = &[
 const CDATAS: &[&str] = &["", "x", "<b>not an element</b>", " ", "]]", "&amp;", "a]]b", "-->", "?>", "текст"];
 const COMMENTS: &[&str] = &["", " c ", "<x/>", "<x a='1'>", "- - ", "]]>", "?>", "&", "текст", " <r> "];
 const PIS: &[&str] = &["p", "p d", "php echo '<x/>'; ", "x-y a=\"1\"", "p >", "p <r>"];
-const VALUES: &[&str] = &["default", "preserve", "true", "false", "0", "", "1", "v", "a b", "&amp;", "&lt;", ">", "x=y", "/>", "текст", " ", "&#10;", "--", "]]>"];
+const VALUES: &[&str] = &["default", "preserve", "true", "false", "0", "&e;", "&nbsp;", "a&co;b", "", "1", "v", "a b", "&amp;", "&lt;", ">", "x=y", "/>", "текст", " ", "&#10;", "--", "]]>"];
 const DECLS: &[&str] = &[
     "version=\"1.0\"",
     "version=\"1.0\" encoding=\"UTF-8\"",
@@ -557,6 +557,10 @@ fn misc_node(rng: &mut Rng, cfg: &GenCfg, kids: &mut Vec<Node>) {
 
 /// sizes around the powers of two where buffers and thresholds live
 fn long_len(rng: &mut Rng) -> usize {
+    // rarely a token of several hundred kilobytes up to more than a megabyte (buffer-growth thresholds)
+    if rng.pct(1) {
+        return *rng.pick(&[300_000usize, 600_000, 1_100_000]);
+    }
     let base = if rng.pct(4) { 8192 } else { *rng.pick(&[16usize, 64, 128, 256, 256, 1024]) };
     base + rng.below(5) - 2
 }
